@@ -62,7 +62,7 @@ class C09(Prop):
             "after Ready, or inside a frame, or on a library-initiated write. Each faulted execution counts as one evaluation.")
     assumptions = ("'released' = close() called on the socket or the socket object finalised (what frees a real descriptor)",
                    "after ECONNRESET the simulated socket behaves like Linux: later I/O fails, shutdown() raises ENOTCONN")
-    examples = {"quick": 96, "thorough": 2400}
+    examples = {"quick": 64, "thorough": 2400}
 
     def strategy(self, tier):
         small = gen.weighted([(3, gen.data_msg(big=False)), (3, gen.control_msg(("ping",))), (1, gen.control_msg(("pong",)))])
